@@ -18,46 +18,7 @@ _ANN = {"int": "int", "bool": "bool", "str": "str", "bytes": "bytes", "list": "l
         "tuple": "tuple", "dict": "dict", "object": "py", "float": "float", "set": "set"}
 
 
-def spec(fn):
-    """Decorator: marks an executable spec function (no run-time effect)."""
-    fn.__pyvc_spec__ = True
-    return fn
-
-
-def axiom(trigger):
-    """Decorator: a boolean function whose universally quantified truth is ASSUMED
-    (listed in evidence, cross-checked by `vcheck axioms`).  It is instantiated at
-    every ground application of the spec function named `trigger` (same parameters)."""
-    def deco(fn):
-        fn.__pyvc_axiom__ = trigger
-        return fn
-    return deco
-
-
-def lemma_fn(trigger):
-    """Like @axiom, but PROVED: a lemma contract with the same name must be discharged
-    in the same run (checked by the driver)."""
-    def deco(fn):
-        fn.__pyvc_axiom__ = trigger
-        fn.__pyvc_lemma__ = True
-        return fn
-    return deco
-
-
-IDENTITY_FNS = {"float_bits": ("float", "int"), "float_from_bits": ("int", "float"),
-                "dset": None, "seq_items": None}
-
-
-def dset(d, k, v):
-    """functional dict update with Python's insertion-order semantics (spec helper)"""
-    out = dict(d)
-    out[k] = v
-    return out
-
-
-def seq_items(d):
-    """the items of a list/tuple datum as a list (spec helper)"""
-    return list(d)
+from .dsl import spec, opaque, axiom, lemma_fn, IDENTITY_FNS, dset, seq_items  # noqa: F401
 
 
 class SpecFn:
@@ -84,14 +45,6 @@ class SpecFn:
                 t = S.simp(t)     # canonical index arguments (i + 1 - 1 -> i)
             ts.append(t)
         return S.V(self.rtag, self.decl(*ts))
-
-
-def opaque(fn):
-    """Decorator: spec function that is never unfolded (its meaning is given by an
-    @external contract or by lemmas)."""
-    fn.__pyvc_opaque__ = True
-    fn.__pyvc_spec__ = True
-    return fn
 
 
 def coerce(v, tag):
@@ -200,7 +153,7 @@ class SpecRegistry:
             m, n = imp
             if n is None:
                 return ("module", m)
-            if n in IDENTITY_FNS and m == "pyvc.specs":
+            if n in IDENTITY_FNS and m in ("pyvc.specs", "pyvc.dsl"):
                 return ("ident", n)
             if m.startswith("spec") or m.startswith("contracts"):
                 return self.lookup(m, n)
